@@ -38,4 +38,18 @@ PROPS = {
         rule="Event part of the property on rig R: create/drop collection/partition events and their replication stamp; barrier wake-up ordered by the scheduler.",
         assumptions=[R_REAL],
     ),
+    "C12": dict(
+        rig="ST", variants=["etcd", "mysql"], runs=dict(quick=3000, thorough=100000),
+        nontrivial_probes=["op_with_fault", "task_deleted", "marked_dropped"],
+        must_hit=["op_with_fault", "task_deleted", "marked_dropped", "multi_root"],
+        rule="Seeded operation sequences (6-22 ops) over the public store functions on 2-3 root paths sharing one backend, task/collection ids that are prefixes of one another or contain LIKE pattern characters; up to 3 injected store faults (error before / after apply) placed by the tape at any backend call.",
+        assumptions=["rig ST: real store.* functions and both backends' store objects; etcd server replaced by SimEtcd (MVCC map behind clientv3.KV), MySQL server by SimSQL (database/sql driver executing the exact statement shapes incl. LIKE semantics)", "identifiers never differ only in case or trailing blanks; ids contain no '/'", "state is observed through the public read API after every operation"],
+    ),
+    "C17": dict(
+        rig="ST", variants=["etcd", "mysql", "memory"], runs=dict(quick=3000, thorough=100000),
+        nontrivial_probes=["three_or_more_reports", "reload", "removed_existing_part", "removed_existing_coll"],
+        must_hit=["three_or_more_reports", "reload", "removed_existing_part", "removed_existing_coll", "became_ready"],
+        rule="Seeded sequences of shard reports (1-5 shards, duplicates, any order) over 2 tasks x 1-3 messages interleaved with removals and reloads (new ReplicateMeteImpl over the same store = crash point).",
+        assumptions=["rig ST: real meta.ReplicateMeteImpl over the real etcd / MySQL replicate stores (on SimEtcd / SimSQL) or an in-memory store"],
+    ),
 }
